@@ -55,7 +55,7 @@ def main():
         return 0
     tier = a[0] if a else "quick"
     seed = int(opt("--seed", os.environ.get("VERIF_SEED", "1")))
-    count = int(opt("--count", 20000 if tier == "quick" else 1500000))
+    count = int(opt("--count", 20000 if tier == "quick" else 400000))
     cfgs = (opt("--configs") or ("base,w32,m51,avx2" if tier == "quick" else ",".join(chk.ALL))).split(",")
     if "base" not in cfgs:
         cfgs = ["base"] + cfgs
